@@ -195,12 +195,10 @@ Theorem end_phase_mints_nothing P m supply h :
   exists m', begin_block P m supply h = BBok m' 0 /\ m_infl m' = 0.
 Proof.
   intros Hv Hh Htot. unfold mparams_valid in Hv.
-  apply andb_prop in Hv as [Hv Hph]. apply andb_prop in Hv as [Hv _]. apply andb_prop in Hv as [Hb _].
+  rewrite !andb_true_iff in Hv. destruct Hv as ((((Hb & _) & _) & Hph) & Hblk).
   apply Z.ltb_lt in Hb.
   assert (Hnn : forall ph, In ph (phases P) -> 0 <= phase_blocks_dec P ph).
-  { intros ph Hin. rewrite forallb_forall in Hph. specialize (Hph ph Hin).
-    unfold phase_valid in Hph. apply andb_prop in Hph as [Hc _]. apply Z.ltb_lt in Hc.
-    apply phase_blocks_dec_nonneg; assumption. }
+  { intros ph Hin. rewrite forallb_forall in Hblk. specialize (Hblk ph Hin). apply Z.ltb_lt in Hblk. lia. }
   unfold begin_block, current_phase.
   destruct (h =? 1) eqn:E1; [apply Z.eqb_eq in E1; lia|].
   rewrite (find_phase_none P (phases P) 0 0 h Hnn) by (unfold total_blocks_dec in Htot; lia).
